@@ -29,9 +29,9 @@ CLAIMS = {
          "MIR dataflow + polynomial identity of partition indices + type/field walk for shared state", True),
 
  "C18": ("other",
-         "Taint/dominance analysis on MIR of all 30 ReaderFrom impls (+ inherent readers) and their writers: stream-derived header values never enter unchecked arithmetic, allocation lengths or slice bounds that are not compared with the very slice indexed; dimension fields are committed only after a dominating validation chain that ends at the receiver's buffer; no failure is reachable after a metadata commit (documented atomicity); writer and reader emit/consume the same sequence of (width, endianness, field, nesting) items on every success path; no backend code involved. Decides the reject-without-corruption and format-agreement clauses for every stream at once; equality of payload bytes is not decided.",
+         "Taint/dominance analysis on MIR of all 30 ReaderFrom impls (+ inherent readers) and their writers: stream-derived header values never enter unchecked arithmetic, allocation lengths or slice bounds that are not compared with the very slice indexed; dimension fields are committed only after a dominating validation chain that ends at the receiver's buffer; no failure is reachable after a metadata commit (documented atomicity); writer and reader emit/consume the same sequence of (width, endianness, field, nesting) items on every success path; no backend code involved; delegated reads inside element loops count as commits (SER-3); a receiver container whose length bounds the incoming length is not replaced by the commit (SER-8); a committed capacity is the validated header value or that value clamped to what the receiver's buffer holds (SER-2). Decides the reject-without-corruption and format-agreement clauses for every stream at once; equality of payload bytes is not decided.",
          "DESIGN.md §3 C18",
-         "Trusted: std::io read_exact/write_all and byteorder semantics; genuine violations on the unchanged tree are listed in known_findings.jsonl (wrappers commit metadata before delegating).",
+         "Trusted: std::io read_exact/write_all and byteorder semantics; genuine violations on the unchanged tree are listed in known_findings.jsonl (8: multi-part keys commit sub-objects / elements one after the other).",
          "MIR taint tracking + dominator-based guard validation + path-trace comparison of writer/reader", True),
 
  "C06": ("other",
@@ -41,13 +41,13 @@ CLAIMS = {
          "MIR dataflow: interprocedural role inference + post-dominator must-call + symbolic radix equality", True),
 
  "C19": ("other",
-         "Structural agreement of compressor, expander and standard encryption on MIR: same kernel with the compressed flag constant (true/false); the stored seed is the seed of the stream that masked the cell (Source::new(s) / branch()) and the store reaches the caller's object rather than a cloned view; the seed-table index used by the encryptor equals, as a polynomial over (row, col, layout accessors), the index used by the layout's at/at_mut that feed the expander; the expander seeds one stream from the stored seed and fills columns 1..rank+1 in ascending order with the object's radix, the same loop shape as the kernel; row plaintext placement agrees between standard and compressed matrix routines. Decides these clauses for all ranks/dnum/dsize at once; bit-identity of cells is not executed.",
+         "Structural agreement of compressor, expander and standard encryption on MIR: same kernel with the compressed flag constant (true/false); the stored seed is the seed of the stream that masked the cell (Source::new(s) / branch()) and the store reaches the caller's object rather than a cloned view; the seed-table index used by the encryptor equals, as a polynomial over (row, col, layout accessors), the index used by the layout's at/at_mut that feed the expander; the expander seeds one stream from the stored seed and fills columns 1..rank+1 in ascending order with the object's radix, the same loop shape as the kernel; row plaintext placement agrees between standard and compressed matrix routines; each infos accessor of a compressed layout delegates to the wrapped object's accessor of the same name, reads data dimensions or has its standard sibling's shape (CMP-6); matrix expanders compare the digit size of receiver and compressed operand (CMP-7); every *Decompress trait is implemented for Module (CMP-8). Decides these clauses for all ranks/dnum/dsize at once; bit-identity of cells is not executed.",
          "DESIGN.md §3 C19",
          "Trusted: kernel arithmetic (C01) and sampling primitives; accessor atoms compared by name.",
          "MIR dataflow + polynomial identity of seed indices + iterator-shape matching", True),
 
  "C11": ("other",
-         "On MIR of every HAL shape function of the reference and AVX crates (operands paired with their *_col argument): overwrite-type operations hand every limb of [0, res.size()) to a kernel on every returning path - decided exactly by evaluating the min/max range bounds over every ordering of the operand sizes (148 functions covered, 18 outside the limb-range idiom listed as undecided); a conditional limb write needs another write for the same limb; every accessor on operand X uses column X_col (371 sites, polynomial identity); no store goes through a pointer derived from a read-only operand; core noise-free operations write every result column; raw-slice kernels taking limb_offset zero-fill from exactly one stride after the last written limb (WR-4); every mutable use of a column-selected output operand is column-selective (WR-5); carry buffers of the shift / normalisation functions are written before they are read on every feasible path, zero-trip loops included (WR-6); core operations read an operand only at columns below its own rank + 1 (COL-2); block extraction into an output covers every row of the destination block (WR-7); thorough tier: compile-fail witness that a read-only view cannot hand out mutable limbs. Bytes inside a limb (kernel contracts) are not decided.",
+         "On MIR of every HAL shape function of the reference and AVX crates (operands paired with their *_col argument): overwrite-type operations hand every limb of [0, res.size()) to a kernel on every returning path - decided exactly by evaluating the min/max range bounds over every ordering of the operand sizes (148 functions covered, 18 outside the limb-range idiom listed as undecided); a conditional limb write needs another write for the same limb; every accessor on operand X uses column X_col (371 sites, polynomial identity); no store goes through a pointer derived from a read-only operand; core noise-free operations write every result column; raw-slice kernels taking limb_offset zero-fill from exactly one stride after the last written limb (WR-4); every mutable use of a column-selected output operand is column-selective (WR-5); carry buffers of the shift / normalisation functions are written before they are read on every feasible path, zero-trip loops included (WR-6); core operations read an operand only at columns below its own rank + 1 (COL-2); block extraction into an output covers every row of the destination block (WR-7); no overwrite-type first operation hits a loop-invariant result column inside a loop over inputs (WR-8); a kernel handed res.raw_mut() receives the column (WR-2) and a kernel writing a single limb leaves the other limbs of the column defined (WR-1); thorough tier: compile-fail witness that a read-only view cannot hand out mutable limbs. Bytes inside a limb (kernel contracts) are not decided.",
          "DESIGN.md §3 C11, §8",
          "Trusted: kernels write the whole limb slice they are given; unknown guards are assumed falsifiable.",
          "MIR loop/range extraction + exact min/max lattice evaluation of limb coverage + column polynomial identity", True),
@@ -63,25 +63,25 @@ CLAIMS = {
          "shared limb/column coverage analysis + call-set comparison of assign twins", True),
 
  "C12": ("other",
-         "Structural scratch accounting on MIR. SC-1: for the 438 (operation, companion) pairs whose size query mirrors the operation's nesting of takes (found through the entry guards or by name, frozen in rules/sc1_pairs.json), the scratch chain of the operation is simulated on every path (takes accumulate, consumers need their own declared companion, closures and un-companioned helpers inlined) and every demand monomial must be contained - as a multiset of size-atom kinds, nested queries expanded - in a monomial of the companion's max-plus expression on every compatible path; HAL queries stay uninterpreted so the verdict covers every backend. SC-2: entry guards name the operation's own (family) companion. SC-3: on every path the first effective use of an object taken from scratch initialises it (path-sensitive typestate over 220+ take sites, closures followed, interprocedural per-parameter summaries, set_size-before-write tracked so that 'written at a reduced size, grown, accumulated' is reported). SC-4: takes that cannot be 64-byte multiples followed by another consumer must be padded by the companion. SC-5: only the scratch carver builds scratch views from raw bytes. SC-6: a temporary created from a layout literal and handed to a nested operation is declared by the nested query on a literal with dominated fields. SC-7: at size-query call sites a role-named usize argument sits in the parameter position of that name (declared trait names). SC-8: every operand whose size a mirror-form take grows with occurs in the companion's term of the same kind. SC-9: vectors of temporaries alive together are paid for by the companion. Thorough tier: compile-fail witnesses for scratch carving and dangling temporaries. Argument-level arithmetic of the size queries and pairs not in mirror form are not decided.",
+         "Structural scratch accounting on MIR. SC-1: for the 438 (operation, companion) pairs whose size query mirrors the operation's nesting of takes (found through the entry guards or by name, frozen in rules/sc1_pairs.json), the scratch chain of the operation is simulated on every path (takes accumulate, consumers need their own declared companion, closures and un-companioned helpers inlined) and every demand monomial must be contained - as a multiset of size-atom kinds, nested queries expanded - in a monomial of the companion's max-plus expression on every compatible path; HAL queries stay uninterpreted so the verdict covers every backend. SC-2: entry guards name the operation's own (family) companion. SC-3: on every path the first effective use of an object taken from scratch initialises it (path-sensitive typestate over 220+ take sites, closures followed, interprocedural per-parameter summaries, set_size-before-write tracked so that 'written at a reduced size, grown, accumulated' is reported). SC-4: takes that cannot be 64-byte multiples followed by another consumer must be padded by the companion. SC-5: only the scratch carver builds scratch views from raw bytes. SC-6: a temporary created from a layout literal and handed to a nested operation is declared by the nested query on a literal with dominated fields. SC-7: at size-query call sites a role-named usize argument sits in the parameter position of that name (declared trait names). SC-1 also reports, for pairs outside mirror form, the uncovered demand monomials listed with a failing input in rules/sc1_confirmed.json while they stay uncovered. SC-8: every operand whose size a taken temporary grows with occurs in the companion's term of the same kind (every pair; takes of free helpers and of query-less internal routines included). SC-9: vectors of temporaries alive together are paid for by the companion. SC-10: an operation called on the remainder of its caller's scratch does not demand the caller's own query again. SC-11: column counts handed to size queries are not integer literals >= 2. SC-12: a dispatching operation is mirrored by a query deciding on the same quantities. SC-13: per-thread windows handed to split_mut contain no bare LWE-sized term. Thorough tier: compile-fail witnesses for scratch carving and dangling temporaries. Argument-level arithmetic of the size queries and pairs not in mirror form are not decided.",
          "DESIGN.md §3 C12, §8, §9",
          "Trusted: modular assumption (each callee meets its own declaration), monotone size queries; mirror-form table frozen from the reference tree.",
          "max-plus symbolic accounting over MIR paths + path-sensitive typestate of scratch temporaries", True),
 
  "C16": ("other",
-         "Metadata-write and error-path discipline of the CKKS layer on MIR: CKKSMeta is written only by the owning modules (78 sites); every usize subtraction of budget/precision accessors is dominated by a comparison establishing minuend >= subtrahend over the same value numbers (or is one of two reasoned table exceptions); automorphism-key lookups and checked budget arithmetic are never unwrapped; every out-of-place `*_into*` operation defines both dst.meta fields on every success return (interprocedural summary over 60 operations through delegates and backend impls); an equality fast path and the ordering branches following it compare the same pair of quantities; the parameter derivation of ct x ct multiplication is invariant under exchanging the operands (CK-6). Slot values, error magnitudes and log_delta+log_budget <= max_k are not decided.",
+         "Metadata-write and error-path discipline of the CKKS layer on MIR: CKKSMeta is written only by the owning modules (78 sites); every usize subtraction of budget/precision accessors is dominated by a comparison establishing minuend >= subtrahend over the same value numbers (or is one of two reasoned table exceptions); automorphism-key lookups and checked budget arithmetic are never unwrapped; every out-of-place `*_into*` operation defines both dst.meta fields on every success return (interprocedural summary over 60 operations through delegates and backend impls); an equality fast path and the ordering branches following it compare the same pair of quantities; the parameter derivation of ct x ct multiplication is invariant under exchanging the operands (CK-6); a core operation asserting k.div_ceil(base2k) == x.size() is not handed (x, x.effective_k()) (CK-7, the never-panics clause for non-compact operands); every out-of-place operation consults the destination's capacity before storing source-derived metadata (CK-8); exponent balance of products - ct x ct: cnv_offset + res_log_budget == budget_a + budget_b, ct x pt: the plaintext's bit position is independent of the ciphertext's metadata, constants sit at their effective_k - decided as piecewise-linear identities over the expressions extracted from MIR (CK-9); the offset returned by ensure_plaintext_alignment is used (CK-10). Slot values and error magnitudes are not decided.",
          "DESIGN.md §3 C16",
-         "Trusted: poulpy-core shape asserts are outside the property; metadata need not be untouched on Err.",
-         "MIR dominator-based guard analysis + interprocedural must-define summary + comparison-chain consistency", True),
+         "Trusted: a ciphertext with metadata (log_delta, log_budget) holds m * 2^-log_budget on the torus and cnv_offset scales a product by 2^cnv_offset (CK-9's laws); other poulpy-core shape asserts are outside the property; metadata need not be untouched on Err.",
+         "MIR dominator-based guard analysis + interprocedural must-define summary + comparison-chain consistency + piecewise-linear identity checking of extracted metadata expressions", True),
 
  "C17": ("other",
-         "The structural invariants the unchecked accessors rely on, decided on MIR: the raw offset of at_ptr/at_mut_ptr plus the limb length stays within n*cols*size under unconditional index asserts (polynomial identity after substituting the asserted maxima), at/raw build slices of exactly n / n*poly_count scalars; every one of the 86 construction sites of the nine layout types and the 19 from_data call sites wraps data with dimensions consistent with it (re-view without altered dimensions, allocation / take_slice of bytes_of of the very same dims, checked sub-slice); dimension fields are mutated only by set_size (guarded by max_size) and the readers (validated, shared with C18) inside the library (the fields are pub, so this says nothing about other crates); block-extraction kernels read a number of rows bounded by the limbs of the source view, followed up the call chain to the take (MS-8); the scratch carver's sub-slices end inside the buffer it splits (MS-9, polynomial inequality over usize quantities); scratch carving ownership, no store through read-only operands, handle immutability (shared rules). Admissibility preconditions and SIMD butterfly index arithmetic are not decided.",
+         "The structural invariants the unchecked accessors rely on, decided on MIR: the raw offset of at_ptr/at_mut_ptr plus the limb length stays within n*cols*size under unconditional index asserts (polynomial identity after substituting the asserted maxima), at/raw build slices of exactly n / n*poly_count scalars; every one of the 86 construction sites of the nine layout types and the 19 from_data call sites wraps data with dimensions consistent with it (re-view without altered dimensions, allocation / take_slice of bytes_of of the very same dims, checked sub-slice); dimension fields are mutated only by set_size (guarded by max_size) and the readers (validated, shared with C18) inside the library (the fields are pub, so this says nothing about other crates); block-extraction kernels read a number of rows bounded by the limbs of the source view, followed up the call chain to the take (MS-8); the scratch carver's sub-slices end inside the buffer it splits (MS-9, polynomial inequality over usize quantities); every dimension of a layout type is a factor of its accessor bound and both raw accessors are guarded (MS-7); slice -> array pointer casts are dominated by a length check that survives release builds (MS-10); std::alloc::alloc is dominated by a size != 0 test (MS-12); thorough tier: compile-fail witnesses W1, W2, W4, W5 (W5 - a temporary tagged with a foreign backend - compiles today and is a known finding); scratch carving ownership, no store through read-only operands, handle immutability (shared rules). Admissibility preconditions and SIMD butterfly index arithmetic are not decided.",
          "DESIGN.md §3 C17, §8",
          "Trusted: objects built by the enumerated idioms satisfy n*cols*size*size_of(Scalar) <= data.len(); kernel-internal index arithmetic.",
          "MIR polynomial bound check of accessor offsets + construction/mutation site idiom matching + shared taint/ownership rules", True),
 
  "C10": ("other",
-         "Wiring agreement on MIR of the AVX configuration the test suite never compiles: all 208 HalImpl methods of the Ref and AVX backend of each family forward to the same shared shape function (one reasoned exception); kernel-trait tables agree and each of ~100 AVX kernel methods is the twin of the Ref kernel (same function, falls back to it, same name stem, or one of four frozen name pairs); the sampling chain is shared and backend independent; small/FFT64-big/NTT120-big siblings agree on limb coverage; every target_feature kernel with a `len >> k` trip count handles the remainder; AVX normalisation step kernels apply the digit/carry helpers per lsh branch as often as their reference twins; in-place and out-of-place forms of an AVX kernel use the same arithmetic intrinsics (BK-7); reference-inline kernels are matched with same-name AVX callees receiving the parameters in order. Bit-equality of kernel arithmetic is not decided.",
+         "Wiring agreement on MIR of the AVX configuration the test suite never compiles: all 208 HalImpl methods of the Ref and AVX backend of each family forward to the same shared shape function (one reasoned exception); kernel-trait tables agree and each of ~100 AVX kernel methods is the twin of the Ref kernel (same function, falls back to it, same name stem, or one of four frozen name pairs); the sampling chain is shared and backend independent; small/FFT64-big/NTT120-big siblings agree on limb coverage; every target_feature kernel with a `len >> k` trip count handles the remainder; AVX normalisation step kernels apply the digit/carry helpers per lsh branch as often as their reference twins; in-place and out-of-place forms of an AVX kernel use the same arithmetic intrinsics (BK-7); reference-inline kernels are matched with same-name AVX callees receiving the parameters in order; where the reference kernel multiplies with i64::wrapping_mul the AVX kernel does not use the 32-bit _mm256_mul_epi32 (BK-8); same-name shape functions of the FFT64 and NTT120 reference families bound a parameter by quantities depending on the same parameters (BK-9). Bit-equality of kernel arithmetic is not decided.",
          "DESIGN.md §3 C10",
          "Trusted: arithmetic inside matched twins; FFT64 vs NTT120 numerical agreement.",
          "impl-table / call-graph comparison across backends + loop-remainder and helper-skeleton analysis of SIMD kernels", True),
